@@ -387,6 +387,14 @@ def Enc.string (e : Enc) : List Nat → Option Enc
     | some e' => Enc.string e' cs
     | none => none
 
+/-- `encode_list_with(list, f)` for an arbitrary element encoder `f` -/
+def Enc.list {α : Type} (f : Enc → α → Option Enc) (e : Enc) : List α → Option Enc
+  | [] => some e.zero
+  | a :: l => match f e.one a with
+    | some e' => Enc.list f e' l
+    | none => none
+
+
 /-! ## Values, sequences (what the stream and the properties run) -/
 
 inductive Value where
@@ -503,6 +511,12 @@ def decodeTop (k : Kind) (bytes : List Byte) : Res Value :=
     | .err e d'' => .err e d''
     | .panic => .panic
   | r => r
+
+/-- `flat::encode(&value)` of `mod.rs`: encode the value, then the filler; the encoder's buffer -/
+def encodeTop (v : Value) : Option (List Byte) :=
+  match Enc.new.value v with
+  | .ok e => some e.filler.buf
+  | _ => none
 
 /-! ## The arms as they were before the `fix:` commits (witnesses of DESIGN §6 #1–#3) -/
 namespace Orig
